@@ -263,7 +263,7 @@ class _Shown:
 
 
 def run(R):
-    D = R.pick(3, 5)
+    D = R.pick(3, 4)
 
     def items():
         out = []
